@@ -4,6 +4,8 @@ package main
 
 import (
 	"fmt"
+	"go/constant"
+	"go/token"
 	"go/types"
 	"sort"
 	"strings"
@@ -19,6 +21,8 @@ func init() {
 		{Name: "encoder-writes-flags-shifted", Rule: "R2.3", Where: "Connect", Edits: []Edit{{"connect.go", "\ti += p.flags.fill(b, i)                      // Flags", "\ti += (p.flags >> 1).fill(b, i)                      // Flags"}}},
 		{Name: "will-qos-bits-not-cleared-on-replacement", Rule: "R2.3", Where: "Connect", Edits: []Edit{{"connect.go", "bits(^(WillQoS2 | WillQoS1))", "bits(^WillQoS2 | WillQoS1)"}}},
 		{Name: "will-properties-through-publish-encoder", Rule: "R2.1", Where: "Connect", Edits: []Edit{{"connect.go", "\t\t\ti += p.will.payloadFormat.fillProp(b, i, PayloadFormatIndicator)\n\t\t\ti += p.will.messageExpiryInterval.fillProp(b, i, MessageExpiryInterval)\n\t\t\ti += p.will.contentType.fillProp(b, i, ContentType)\n\t\t\ti += p.will.responseTopic.fillProp(b, i, ResponseTopic)\n\t\t\ti += p.will.correlationData.fillProp(b, i, CorrelationData)\n\t\t\ti += p.will.UserProperties.properties(b, i)\n", "\t\t\ti += p.will.properties(b, i)\n"}}},
+		{Name: "default-protocol-version-4", Rule: "R2.8", Where: "NewConnect#version", Edits: []Edit{{"connect.go", "\t\tprotocolVersion: 5,", "\t\tprotocolVersion: 4,"}}},
+		{Name: "default-protocol-name-v3", Rule: "R2.8", Where: "NewConnect#name", Edits: []Edit{{"connect.go", "var mqtt5 = []byte(\"MQTT\")", "var mqtt5 = []byte(\"MQIsdp\")"}}},
 		{Name: "reason-string-under-wrong-id", Rule: "R2.1", Where: "Auth", Edits: []Edit{{"auth.go", "\ti += p.reasonString.fillProp(b, i, ReasonString)", "\ti += p.reasonString.fillProp(b, i, ServerReference)"}}},
 		{Name: "remaining-length-omits-properties", Rule: "R2.4", Where: "ConnAck", Edits: []Edit{{"connack.go", "\ti += vbint(p.variableHeader(_LEN, 0)).fill(b, i) // remaining length", "\ti += vbint(2).fill(b, i) // remaining length"}}},
 		{Name: "property-length-omits-user-properties", Rule: "R2.4", Where: "Publish", Edits: []Edit{
@@ -180,6 +184,7 @@ func checkC02(p *Prog, c *Check) {
 	c.Rule("R2.2", "the first item emitted is the first byte: type code of the packet in the upper nibble and the reserved bits of the specification in the lower (PUBLISH: DUP/QoS/RETAIN)")
 	c.Rule("R2.3", "the items after the fixed header are those of the specification for that packet type, in its order, each with its wire type and from the right field; optional items are present exactly as their presence rule says (will, user name and password by the CONNECT flags; packet identifier iff QoS 1/2)")
 	c.Rule("R2.4", "every length prefix equals the bytes it covers: remaining length = everything after it; property length = the properties that follow")
+	c.Rule("R2.8", "a CONNECT that keeps its defaults carries protocol name \"MQTT\" and protocol version 5: the constants the constructor stores behind ProtocolName()/ProtocolVersion()")
 	c.Rule("R2.7", "the values written are the values set: no list field that may hold the caller's own slice is grown in place, and no packet is copied by value (two packets would then share list storage and overwrite each other's elements before encoding) — shared with C14 R14.7/R14.8")
 	c.Rule("R2.6", "the exported CONNECT flag constants and subscription option constants have the bit values of the specification (§3.1.2.3, §3.8.3.1)")
 	c.Rule("R2.5", "optional-section chain: where trailing sections may be omitted (PUBACK family, DISCONNECT, AUTH), properties present ⇒ property length present ⇒ reason code present")
@@ -297,6 +302,7 @@ func checkC02(p *Prog, c *Check) {
 	}
 	checkIdentConstants(p, c)
 	checkFlagConstants(p, c)
+	checkConnectDefaults(p, c)
 	// R2.7: what was set through the API cannot be overwritten behind the packet's back (shared with C14 R14.7/R14.8)
 	{
 		sub := NewCheck(c.ID, p)
@@ -641,5 +647,93 @@ func (w *specWalk) list(sf specField) {
 	}
 	if n == 0 {
 		w.fail("R2.3", "the payload list %s is empty", sf.Name)
+	}
+}
+
+// checkConnectDefaults (R2.8): a CONNECT that keeps its defaults announces protocol name "MQTT" and version 5
+// (§3.1.2.1, §3.1.2.2): the constructor stores the constant 5 into the field behind ProtocolVersion() and, into the
+// field behind ProtocolName(), the bytes of the constant "MQTT" (directly or through a package variable that is
+// assigned exactly once, from that constant).
+func checkConnectDefaults(p *Prog, c *Check) {
+	var ctor *ssa.Function
+	for _, fn := range p.Roots().Ctor {
+		if fn.Signature.Params().Len() == 0 && fn.Signature.Results().Len() == 1 {
+			if nt := namedOf(fn.Signature.Results().At(0).Type()); nt != nil && nt.Obj().Name() == "Connect" {
+				ctor = fn
+			}
+		}
+	}
+	fv, okv := p.accessorField("Connect", "ProtocolVersion")
+	fnm, okn := p.accessorField("Connect", "ProtocolName")
+	if ctor == nil || !okv || !okn {
+		c.Unk("R2.8", "NewConnect", "-", "constructor or the fields behind ProtocolVersion()/ProtocolName() not found")
+		return
+	}
+	pos := p.Pos(ctor.Pos())
+	constString := func(v ssa.Value) (string, bool) {
+		cv, ok := stripConvs(v).(*ssa.Const)
+		if !ok || cv.Value == nil || cv.Value.Kind() != constant.String {
+			return "", false
+		}
+		return constant.StringVal(cv.Value), true
+	}
+	ver, name := int64(-1), ""
+	nameOK := false
+	for _, b := range ctor.Blocks {
+		for _, ins := range b.Instrs {
+			st, ok := ins.(*ssa.Store)
+			if !ok {
+				continue
+			}
+			fa, ok := st.Addr.(*ssa.FieldAddr)
+			if !ok {
+				continue
+			}
+			if fa.Field == fv {
+				if k, isC := constInt(st.Val); isC {
+					ver = k
+				}
+			}
+			if fa.Field == fnm {
+				if s, ok := constString(st.Val); ok {
+					name, nameOK = s, true
+				} else if ld, ok := stripConvs(st.Val).(*ssa.UnOp); ok && ld.Op == token.MUL {
+					if g, ok := ld.X.(*ssa.Global); ok {
+						// exactly one store to the global in the whole package, in init, of the constant
+						n := 0
+						for _, f := range p.AllFuncs() {
+							for _, fb := range f.Blocks {
+								for _, fi := range fb.Instrs {
+									if gs, ok := fi.(*ssa.Store); ok && gs.Addr == ssa.Value(g) {
+										n++
+										if s, ok := constString(gs.Val); ok && f.Name() == "init" {
+											name, nameOK = s, true
+										} else {
+											nameOK = false
+											n += 100
+										}
+									}
+								}
+							}
+						}
+						if n != 1 {
+							nameOK = false
+						}
+					}
+				}
+			}
+		}
+	}
+	if ver == 5 {
+		c.OK("R2.8", "NewConnect#version", pos, "the default protocol version is 5")
+	} else {
+		c.Bad("R2.8", "NewConnect#version", pos, fmt.Sprintf("the default protocol version is %d, MQTT v5.0 requires 5", ver))
+	}
+	if nameOK && name == "MQTT" {
+		c.OK("R2.8", "NewConnect#name", pos, `the default protocol name is "MQTT"`)
+	} else if nameOK {
+		c.Bad("R2.8", "NewConnect#name", pos, fmt.Sprintf("the default protocol name is %q, MQTT v5.0 requires \"MQTT\"", name))
+	} else {
+		c.Unk("R2.8", "NewConnect#name", pos, "cannot determine the default protocol name as a constant")
 	}
 }
